@@ -88,6 +88,40 @@ def handle : List Sexp → Option String
       some (match GenK.setOfSort (cut lens (a.drop n)) with
         | .ok (sub, c, o) => s!"ok{ints sub} | {c} {o}"
         | .error e => "err " ++ errName e)
+  | .atom "KWREAD" :: .atom which :: .atom n :: .atom pos :: .atom rawk :: .atom bl :: args => do
+      -- KWREAD read|peek n pos rawkind(-1 = None, else length of the raw answer) buflen buf... raw...
+      let a ← intArgs args
+      let blen ← bl.toNat?
+      let rk ← rawk.toInt?
+      let raw : Option Py.Tup := if rk < 0 then none else some (a.drop blen)
+      let p0 ← pos.toInt?
+      let n0 ← n.toInt?
+      let b : Py.BytesIO := ⟨a.take blen, p0⟩
+      let r := if which == "peek" then GenK.wrapPeek raw n0 b else GenK.wrapRead raw n0 b
+      some (match r with
+        | .ok (res, b') => (match res with | none => "ok none" | some t => s!"ok some{ints t}") ++ s!" | {b'.pos} |{ints b'.buf}"
+        | .error e => "err " ++ errName e)
+  | .atom "KWMARK" :: .atom value :: .atom pos :: .atom mark :: args => do
+      let a ← intArgs args
+      let v0 ← value.toInt?
+      let p0 ← pos.toInt?
+      let m0 ← mark.toInt?
+      some (match GenK.wrapSetMark v0 ⟨a, p0⟩ m0 with
+        | .ok (b', m') => s!"ok {m'} | {b'.pos} |{ints b'.buf}"
+        | .error e => "err " ++ errName e)
+  | .atom "PYBIO" :: .atom op :: .atom pos :: .atom x :: .atom y :: args => do
+      -- PYBIO read pos n 0 buf... | PYBIO seek pos n whence buf... | PYBIO write pos datalen 0 data... buf...
+      let a ← intArgs args
+      let p ← pos.toInt?
+      let x ← x.toInt?
+      let y ← y.toInt?
+      match op with
+      | "read" => let r := Py.bioRead ⟨a, p⟩ x; some s!"ok{ints r.1} | {r.2.pos} |{ints r.2.buf}"
+      | "seek" => some (match Py.bioSeek ⟨a, p⟩ x y with
+          | .ok (q, b') => s!"ok {q} | {b'.pos} |{ints b'.buf}"
+          | .error e => "err " ++ errName e)
+      | "write" => let r := Py.bioWrite ⟨a.drop x.toNat, p⟩ (a.take x.toNat); some s!"ok {r.1} | {r.2.pos} |{ints r.2.buf}"
+      | _ => none
   | .atom "KDECTAG" :: args => do
       let a ← intArgs args
       some (out (GenK.decodeTag a))
